@@ -14,6 +14,10 @@ pub struct Case {
     pub scalar: bool,
     pub xs: Vec<X>,
     pub bars: Vec<RawBar>,
+    /// k > 1: the stateless window references (FAST_STOCH, ER, CCI, MFI) are evaluated while t <= n+2,
+    /// at every k-th step and at the end only (fuzz decoder, large periods)
+    #[serde(default)]
+    pub stride: usize,
 }
 
 pub const CAP: f64 = 1e6;
@@ -77,6 +81,13 @@ pub fn check(c: &Case, ctx: &mut Ctx) -> Result<(), Failure> {
         lows.push(bar.l);
         let t = hist.len();
         let w0 = t - t.min(n);
+        if c.stride > 1 && matches!(k, Kind::FastStoch | Kind::Er | Kind::Cci | Kind::Mfi) && t > n + 2 && i % c.stride != 0 && i + 1 != len {
+            if k == Kind::Mfi && t >= 2 && tp_dd(&bars[t - 2]).to_f64() != tp_dd(&bar).to_f64() {
+                mfi_big = mfi_big.max((tp_dd(&bar).to_f64() * bar.v).abs());
+            }
+            tp_big = tp_big.max(bar.tp().abs());
+            continue;
+        }
         // (field, reference or None=degenerate, natural scale, tainted)
         let mut exp: Vec<(&'static str, Option<Cond>, f64, bool)> = Vec::with_capacity(3);
         match k {
@@ -244,12 +255,12 @@ const TSK: [Kind; 5] = [Kind::FastStoch, Kind::SlowStoch, Kind::Roc, Kind::Er, K
 const TBK: [Kind; 4] = [Kind::FastStoch, Kind::SlowStoch, Kind::Mfi, Kind::Obv];
 fn tiny_strategy() -> BoxedStrategy<Case> {
     prop_oneof![
-        cfg_among(&TSK, 64, no_mult).prop_flat_map(|cfg| { let n = cfg.n(); (Just(cfg), stream(Domain::TinyNormal, 1, 4 * n + 60)) }).prop_map(|(cfg, s)| Case { cfg, scalar: true, xs: xs(&s.vals), bars: vec![] }),
+        cfg_among(&TSK, 64, no_mult).prop_flat_map(|cfg| { let n = cfg.n(); (Just(cfg), stream(Domain::TinyNormal, 1, 4 * n + 60)) }).prop_map(|(cfg, s)| Case { cfg, scalar: true, xs: xs(&s.vals), bars: vec![], stride: 0 }),
         cfg_among(&TBK, 64, no_mult).prop_flat_map(|cfg| { let n = cfg.n(); (Just(cfg), bar_stream_dom(Domain::TinyNormal, 1, 4 * n + 60), 0usize..3) }).prop_map(|(cfg, s, vs)| {
             // volumes: as generated, or scaled down to fractional lots (flows become subnormal)
             let f = [1.0, 1e-3, 1e-5][vs];
             let bars = s.bars.into_iter().map(|mut b| { b.v *= f; b }).collect();
-            Case { cfg, scalar: false, xs: vec![], bars }
+            Case { cfg, scalar: false, xs: vec![], bars, stride: 0 }
         }),
     ]
     .boxed()
@@ -262,13 +273,13 @@ fn strategy(lo: usize, hi: usize, extra: usize) -> BoxedStrategy<Case> {
                 let n = cfg.n();
                 (Just(cfg), prop_oneof![3 => stream(Domain::PositiveGrid, lo, (4 * n + 50).max(hi.min(400)).max(lo) + extra), 1 => stream(Domain::Positive, lo, (4 * n + 50).max(hi.min(400)).max(lo) + extra)])
             })
-            .prop_map(|(cfg, s)| Case { cfg, scalar: true, xs: xs(&s.vals), bars: vec![] }),
+            .prop_map(|(cfg, s)| Case { cfg, scalar: true, xs: xs(&s.vals), bars: vec![], stride: 0 }),
         cfg_among(&BK, 512, no_mult)
             .prop_flat_map(move |cfg| {
                 let n = cfg.n();
                 (Just(cfg), prop_oneof![3 => bar_stream(true, lo, (4 * n + 50).max(hi.min(400)).max(lo) + extra), 1 => bar_stream(false, lo, (4 * n + 50).max(hi.min(400)).max(lo) + extra)])
             })
-            .prop_map(|(cfg, s)| Case { cfg, scalar: false, xs: vec![], bars: s.bars }),
+            .prop_map(|(cfg, s)| Case { cfg, scalar: false, xs: vec![], bars: s.bars, stride: 0 }),
     ]
     .boxed()
 }
@@ -291,7 +302,7 @@ pub fn run(g: &mut Global) {
         &move |i| {
             let cfg = sc[(i / per) as usize].clone();
             let d = digits(i % per, 4, d1);
-            Case { cfg, scalar: true, xs: d.iter().map(|&j| X(SALPHA[j])).collect(), bars: vec![] }
+            Case { cfg, scalar: true, xs: d.iter().map(|&j| X(SALPHA[j])).collect(), bars: vec![], stride: 0 }
         },
         &check,
     );
@@ -304,7 +315,7 @@ pub fn run(g: &mut Global) {
         &move |i| {
             let cfg = bc[(i / perb) as usize].clone();
             let d = digits(i % perb, 6, d2);
-            Case { cfg, scalar: false, xs: vec![], bars: d.iter().map(|&j| ba[j]).collect() }
+            Case { cfg, scalar: false, xs: vec![], bars: d.iter().map(|&j| ba[j]).collect(), stride: 0 }
         },
         &check,
     );
@@ -348,4 +359,7 @@ pub fn run(g: &mut Global) {
         },
         &|c, ctx| crate::props::c13::check_as(c, ctx, "C03", true),
     );
+    if g.tier == Tier::Thorough {
+        g.fuzz_stage("ops_value", Some(2), 600_000, "random", &|b| crate::fuzzdec::decode_c03(b), &check);
+    }
 }
